@@ -488,6 +488,29 @@ def preflight (r : Req) : Bool := r.pf && r.method == "OPTIONS"
 /-- a layer of the handler chain, by name -/
 abbrev Layer := String
 
+/-- the two kinds of listener an API serves: the HTTP(S) listeners of `http_listen_multiaddress` and the libp2p-tunnelled
+    one (`libp2p_listen_multiaddress`, or the host handed to `NewAPIWithHost`) -/
+inductive Listener where
+  | http | libp2p
+  deriving DecidableEq, Repr
+
+def Listener.field : Listener → String
+  | .http => "api.httpListeners"
+  | .libp2p => "api.libp2pListener"
+
+/-- The handler chain a listener serves, read off the regenerated tables: `(*API).run` starts one function for the
+    listener's field (`starts`), that function has exactly one serving call (`sites`), the value served is `api.server`,
+    and `api.server` is the one `http.Server` built in the file (one literal, one router, the field never written again),
+    whose `Handler` is `chain`.  Anything else: `none` (fail-closed). -/
+def listenerChain (starts : List (String × String)) (sites : List (String × String × String))
+    (lits routers writes : Nat) (chain : List Layer) (l : Listener) : Option (List Layer) :=
+  match starts.lookup l.field with
+  | none => none
+  | some fn =>
+    match sites.filter (fun s => s.1 == fn) with
+    | [(_, srv, _)] => if srv == "api.server" && lits == 1 && routers == 1 && writes == 0 then some chain else none
+    | _ => none
+
 /-- layers by name, outermost first; the chain ends with "router" -/
 def serve : List String → List Route → Req → Resp
   | [], _, _ => unmodelled
